@@ -3,6 +3,7 @@ from __future__ import annotations
 
 from .. import symptoms, tlc
 from ..common import Run
+from ..project import has_duplicate_attrs
 from . import layout
 
 MODEL_CFG = {"quick": "MC_Fmt_quick.cfg", "thorough": "MC_Fmt_thorough.cfg"}
@@ -82,6 +83,17 @@ def check(prop: str, tier: str, seed: int) -> int:
     descs = layout.gen_programs(tier, seed, run)
     cases, discards = layout.make_cases(descs, seed)
     cases = select(prop, cases)
+    if prop == "C01" or tier == "thorough":
+        # the texts the repository's own tests parse (recorded by running the pinned suite with harness/pytest_record.py)
+        from . import suite
+        texts, _ = suite.record()
+        seen = {c["text"] for c in cases}
+        n0 = len(cases)
+        for t in texts:
+            if t not in seen and not layout.has_error(t) and not has_duplicate_attrs(t):
+                seen.add(t)
+                cases.append({"id": len(cases) + 1, "key": "suite", "con": "suite", "text": t, "cmt": "#" in t or "/*" in t})
+        run.coverage["repository_suite_texts"] = len(cases) - n0
     layout.execute(cases)
     verdicts = layout.judge(cases, run, shards=8 if tier == "quick" else 14)
     for c in cases:
